@@ -151,8 +151,16 @@ pub fn worker_main<W: World>(args: &[String]) -> i32 {
     let mut violations: Vec<Value> = Vec::new();
     let mut done = 0u64;
     let mut combined = 0u64;
+    let mut resume_at: Option<u64> = None;
     for k in 0..count {
         if t0.elapsed().as_secs_f64() > budget {
+            break;
+        }
+        if k > 0 && crate::heap::live() != 0 {
+            // a previous world left blocks in the simulated heap (a leak in the code under test): the arena
+            // cannot be reset, so the rest of this worker's indices continue in a fresh process
+            st.inc("observed_worker_restarts_after_leaked_arena_blocks");
+            resume_at = Some(k);
             break;
         }
         let i = start + k * stride;
@@ -192,7 +200,7 @@ pub fn worker_main<W: World>(args: &[String]) -> i32 {
         "distinct": st.distinct.iter().collect::<Vec<_>>(), "distinct2": st.distinct2.iter().collect::<Vec<_>>(),
         "samples": st.samples, "notes": st.notes.iter().collect::<Vec<_>>(),
         "hashes": hashes, "violations": violations, "wall_s": t0.elapsed().as_secs_f64(),
-        "heap": crate::heap::stats_json(),
+        "heap": crate::heap::stats_json(), "resume_at": resume_at,
     });
     let so = std::io::stdout();
     let mut so = so.lock();
@@ -216,29 +224,35 @@ struct Merged {
 fn spawn_workers(prop: &str, tier: Tier, seed: u64, runs: u64, budget_s: f64, workers: usize, hashes: bool) -> Merged {
     let exe = std::env::current_exe().expect("current_exe");
     let workers = workers.max(1).min(runs.max(1) as usize);
-    let mut children = Vec::new();
-    for wi in 0..workers {
-        let count = (runs + workers as u64 - 1 - wi as u64) / workers as u64;
+    let t_start = Instant::now();
+    let spawn = |start: u64, count: u64| {
+        let left = (budget_s - t_start.elapsed().as_secs_f64()).max(0.0);
         let mut c = Command::new(&exe);
         c.arg("worker").arg(prop)
             .arg("--seed").arg(seed.to_string())
-            .arg("--start").arg(wi.to_string())
+            .arg("--start").arg(start.to_string())
             .arg("--stride").arg(workers.to_string())
             .arg("--count").arg(count.to_string())
-            .arg("--budget-s").arg(budget_s.to_string())
+            .arg("--budget-s").arg(left.to_string())
             .arg("--tier").arg(tier.name());
         if hashes {
             c.arg("--hashes");
         }
         c.stdout(Stdio::piped()).stderr(Stdio::inherit()).stdin(Stdio::null());
-        children.push((wi, c.spawn().expect("spawn worker")));
+        c.spawn().expect("spawn worker")
+    };
+    let mut children = Vec::new();
+    for wi in 0..workers {
+        let count = (runs + workers as u64 - 1 - wi as u64) / workers as u64;
+        children.push((wi, wi as u64, count, spawn(wi as u64, count)));
     }
     let mut m = Merged {
         done: 0, counters: BTreeMap::new(), distinct: BTreeSet::new(), distinct2: BTreeSet::new(),
         samples: vec![], notes: BTreeSet::new(), hashes: BTreeMap::new(), violations: vec![],
         heap: BTreeMap::new(), worker_failures: vec![],
     };
-    for (wi, ch) in children {
+    let mut queue: std::collections::VecDeque<_> = children.into_iter().collect();
+    while let Some((wi, start, count, ch)) = queue.pop_front() {
         let out = ch.wait_with_output().expect("wait worker");
         let text = String::from_utf8_lossy(&out.stdout);
         let last = text.lines().rev().find(|l| l.starts_with('{'));
@@ -250,6 +264,12 @@ fn spawn_workers(prop: &str, tier: Tier, seed: u64, runs: u64, budget_s: f64, wo
             }
         };
         m.done += v["done"].as_u64().unwrap_or(0);
+        if let Some(k) = v["resume_at"].as_u64() {
+            if k < count && v["violations"].as_array().map(|a| a.is_empty()).unwrap_or(true) {
+                let ns = start + k * workers as u64;
+                queue.push_back((wi, ns, count - k, spawn(ns, count - k)));
+            }
+        }
         if let Some(o) = v["counters"].as_object() {
             for (k, n) in o {
                 let n = n.as_u64().unwrap_or(0);
@@ -453,6 +473,12 @@ pub fn parent_main<W: World>(tier: Tier, plan: Plan, extra: Extra) -> i32 {
     }
     println!("{}: {} runs, {} distinct states, {} new violations, {} known-finding lines, {:.1}s; evidence {}",
         prop, m.done, m.distinct.len(), new_violations, known_lines, wall, evp);
+    for (k, n) in &m.counters {
+        if k.starts_with("harness_") && *n > 0 {
+            println!("HARNESS-ERROR {} = {}", k, n);
+            harness_errors += 1;
+        }
+    }
     if harness_errors > 0 {
         return 2;
     }
